@@ -41,10 +41,29 @@ def build_files(d, files):
             elif kind == "image1d":
                 data = np.arange(5, dtype=np.float32)
                 hdu = fits.PrimaryHDU(data) if hi == 0 else fits.ImageHDU(data)
+            elif kind == "cube":
+                ny, nx = h["shape"]
+                nf = h["nfreq"]
+                order = h["order"]  # FITS axis order, fastest first
+                np_shape = {"RDF": (nf, ny, nx), "FRD": (ny, nx, nf), "RFD": (ny, nf, nx)}[order]
+                data = np.full(np_shape, float(h["fill"]), dtype=np.float32)
+                hdu = fits.PrimaryHDU(data) if hi == 0 else fits.ImageHDU(data)
+                for key, crval in h["wcs"].items():
+                    w = WCS(naxis=3)
+                    names = {"R": "RA---TAN", "D": "DEC--TAN", "F": "FREQ"}
+                    w.wcs.ctype = [names[c] for c in order]
+                    w.wcs.crval = [{"R": crval[0], "D": crval[1], "F": 1.4e9}[c] for c in order]
+                    w.wcs.crpix = [{"R": nx / 2 + 0.5, "D": ny / 2 + 0.5, "F": 1.0}[c] for c in order]
+                    w.wcs.cdelt = [{"R": -0.01, "D": 0.01, "F": 1e6}[c] for c in order]
+                    hdu.header.update(w.to_header(key=key))
             else:
                 ny, nx = h["shape"]
-                data = np.full((ny, nx), float(h["fill"]), dtype=np.float32)
-                hdu = fits.PrimaryHDU(data) if hi == 0 else fits.ImageHDU(data)
+                if kind == "comp2d":
+                    data = np.full((ny, nx), int(h["fill"]), dtype=np.int32)
+                    hdu = fits.CompImageHDU(data, compression_type="RICE_1")
+                else:
+                    data = np.full((ny, nx), float(h["fill"]), dtype=np.float32)
+                    hdu = fits.PrimaryHDU(data) if hi == 0 else fits.ImageHDU(data)
                 for key, crval in h["wcs"].items():
                     w = WCS(naxis=2)
                     w.wcs.ctype = ["RA---TAN", "DEC--TAN"]
@@ -62,16 +81,21 @@ def build_files(d, files):
     return paths
 
 
+IMAGE_KINDS = ("image2d", "comp2d", "cube")
+
+
 def first_image_hdu(hdus):
     for i, h in enumerate(hdus):
-        if h["kind"] == "image2d":
+        if h["kind"] in IMAGE_KINDS:
             return i
     raise AssertionError
 
 
 def expected(case):
     out = []
-    for fi, hdus in enumerate(case["files"]):
+    refs = case.get("path_refs") or list(range(len(case["files"])))
+    for fi, ref in enumerate(refs):
+        hdus = case["files"][ref]
         sel = case["hdu_sel"]
         if sel["kind"] == "none":
             idx = first_image_hdu(hdus)
@@ -155,7 +179,9 @@ def build_collection(case, paths, captured):
 def exec_case(case):
     exp = expected(case)
     with fresh_dir("c20-") as d:
-        paths = build_files(d, case["files"])
+        file_paths = build_files(d, case["files"])
+        refs = case.get("path_refs") or list(range(len(file_paths)))
+        paths = [file_paths[r] for r in refs]
         what = f"route {case['route']}, hdu selector {case['hdu_sel']}, key selector {case['key_sel']}"
         with toasty_call("load", what):
             coll = build_collection(case, paths, {})
@@ -188,7 +214,13 @@ def exec_case(case):
             if ep[0] != paths[i] or int(ep[1]) != e["idx"]:
                 raise Violation("export", f"{what}: export_simple entry {i} = {ep}, expected ({paths[i]}, {e['idx']})")
     idxs = [e["idx"] for e in exp]
-    cls = [case["route"], "hdu:" + case["hdu_sel"]["kind"], "key:" + case["key_sel"]["kind"], f"files{len(exp)}"]
+    refs_ = case.get("path_refs") or []
+    extra_cls = []
+    if len(set(refs_)) < len(refs_):
+        extra_cls.append("repeated-path")
+    sel_kinds = set(case["files"][r][e["idx"]]["kind"] for r, e in zip(refs_ or range(len(exp)), exp))
+    extra_cls += sorted("selected:" + k for k in sel_kinds)
+    cls = extra_cls + [case["route"], "hdu:" + case["hdu_sel"]["kind"], "key:" + case["key_sel"]["kind"], f"files{len(exp)}"]
     nt = len(exp) >= 2 and (len(set(idxs)) > 1 or (case["key_sel"]["kind"] == "list" and len(set(case["key_sel"]["value"])) > 1))
     return Outcome(classes=cls, nontrivial=nt)
 
@@ -202,22 +234,32 @@ def strat(draw, tier):
         n_ext = draw(st.integers(0, 4))
         hdus = []
         prim = draw(st.sampled_from(["empty", "empty", "image2d", "image1d"]))
-        kinds = [prim] + [draw(st.sampled_from(["image2d", "image2d", "table", "image1d", "empty"])) for _ in range(n_ext)]
-        if "image2d" not in kinds:
-            kinds.append("image2d")
+        kinds = [prim] + [draw(st.sampled_from(["image2d", "image2d", "table", "image1d", "empty", "comp2d", "cube"])) for _ in range(n_ext)]
+        if not any(k in IMAGE_KINDS for k in kinds):
+            kinds.append(draw(st.sampled_from(["image2d", "image2d", "comp2d", "cube"])))
         for k in kinds:
             h = {"kind": k}
-            if k == "image2d":
+            if k in IMAGE_KINDS:
                 uid[0] += 1
                 u = uid[0]
+                if k == "cube":
+                    h["nfreq"] = draw(st.sampled_from([1, 3]))
+                    h["order"] = draw(st.sampled_from(["RDF", "FRD", "RFD"]))
                 keys = [" "] + draw(st.sampled_from([[], [], ["A"], ["A", "B"], ["B", "C"], ["A", "B", "C"]]))
                 h["shape"] = [3 + u, 40 - u]
-                h["fill"] = u * 1.5
+                h["fill"] = u * 1.5 if k != "comp2d" else u * 3
                 h["wcs"] = {key: [10.0 * u + 0.25 * j, -30.0 + u + 0.125 * j] for j, key in enumerate(keys)}
             hdus.append(h)
         files.append(hdus)
+    # the input list may name the same file more than once
+    refs = list(range(nfiles))
+    if draw(st.integers(0, 3)) == 0:
+        for _ in range(draw(st.integers(1, 2))):
+            refs.insert(draw(st.integers(0, len(refs))), draw(st.integers(0, nfiles - 1)))
+    all_files = files
+    files = [all_files[r] for r in refs]  # per list position, for the selectors below
     # selectors
-    img_idx = [[i for i, h in enumerate(f) if h["kind"] == "image2d"] for f in files]
+    img_idx = [[i for i, h in enumerate(f) if h["kind"] in IMAGE_KINDS] for f in files]
     kind = draw(st.sampled_from(["none", "scalar", "list", "list"]))
     if kind == "scalar":
         common = set(img_idx[0])
@@ -231,7 +273,7 @@ def strat(draw, tier):
         hdu_sel = {"kind": "list", "value": [draw(st.sampled_from(ii)) for ii in img_idx]}
     if kind == "none":
         hdu_sel = {"kind": "none"}
-    case = {"files": files, "hdu_sel": hdu_sel, "key_sel": {"kind": "none"}}
+    case = {"files": all_files, "path_refs": refs, "hdu_sel": hdu_sel, "key_sel": {"kind": "none"}}
     sel_hdus = []
     for fi, f in enumerate(files):
         if hdu_sel["kind"] == "none":
